@@ -31,3 +31,7 @@ def run(ctx):
     rcommon.run_check(ctx, "C04", "Runner/Props_C04.v", SIZES,
                       "C04 oracles: LoadTarget/Evaluate/body call counts <= 1 per label; a dependent continues only after its "
                       "dependencies finished; the result handed over is the dependency's own error value; Run's result is the root's.")
+    # at-most-once at project level: the runner keys targets by label string, LoadTarget resolves labels -- whole builds of real
+    # projects (incl. one target requested under two spellings), body executions counted from the execution log
+    from checks.engine_common import run_engine_oracles
+    run_engine_oracles(ctx, "C04", ["C04 "], histories=16 if ctx.quick() else 120, steps=10 if ctx.quick() else 16)
